@@ -17,7 +17,10 @@ def payloads(salt):
     import hashlib
     h = hashlib.sha256(str(salt).encode()).digest()
     # 3: same length and same first bytes as 1 (an overwrite that keeps the size)
-    return {0: b"", 1: b"\x01one-" + h[:13], 2: (h * 4)[:100] + b"\x00" * 20, 3: b"\x01one-" + h[13:26]}
+    # 4: a payload that is itself a complete gzip stream (it must come back as stored)
+    import gzip as _gzip
+    return {0: b"", 1: b"\x01one-" + h[:13], 2: (h * 4)[:100] + b"\x00" * 20, 3: b"\x01one-" + h[13:26],
+            4: _gzip.compress(b"inner-" + h[:9], mtime=0)}
 
 
 def _id_of(data, pay):
